@@ -118,8 +118,11 @@ def rule_rep(S, la):
             fs = R.refine(f, blk, idx, frozenset(), {info: 'nonnull'})
             return None if fs is None else st
 
+        # borders the helper requires to be dirty already at entry (its caller marked them): they count as changed
+        entry_dirty = frozenset(t for (t, lvl) in la.summary.get(f.fid, {}).get('need', ()) if lvl == 'D' and
+                                t and t[0] == 'param')
         ex = Explorer(f, step, branch)
-        ex.run((frozenset(), None, None, None))
+        ex.run((entry_dirty, None, None, None))
         for st in ex.exit_states:
             class _C:  # fall-off exit: no witness
                 pass
@@ -195,6 +198,40 @@ def rule_rep(S, la):
         S.ob('R-REP', fn, 'insert path exists', bool(res['fw']), 'put calls insert_lv' if res['fw'] else
              'put no longer calls insert_lv', loc=f.loc)
     S.require('R-REP', 'reporting obligations', n, 10)
+    # put: a border that put itself marks dirty reaches no unlock / return except through insert_lv (which reports it)
+    for f in puts:
+        fi = la.fi(f)
+        sites = {}
+
+        def cstep(ctx, nd, dirty):
+            if nd['k'] in CALL_KINDS:
+                cq = nd.get('cq')
+                recv = call_recv(f, nd)
+                if cq in SET_DIRTY and recv is not None and is_border_recv(f, recv):
+                    t = la.tok(fi, recv)
+                    if not (t and t[0] == 'var' and t[1] in fi.fresh_vars):
+                        return dirty | {t}
+                if cq == Y + 'insert_lv':
+                    toks = {la.tok(fi, x) for x in call_args(f, nd)}
+                    return frozenset(t for t in dirty if t not in toks)
+                if cq == UNLOCK and recv is not None:
+                    t = la.tok(fi, recv)
+                    if t in dirty:
+                        e = sites.setdefault('version_unlock at ' + short_loc(nd), {'loc': short_loc(nd), 'path': ctx.witness(), 'tok': t})
+                        return dirty - {t}
+            if nd['k'] == 'ReturnStmt':
+                return None
+            return dirty
+
+        Explorer(f, cstep, None).run(frozenset())
+        n += 1
+        S.ob('R-REP', fname(f), 'borders marked dirty by put itself', not sites,
+             'none reaches an unlock except through insert_lv' if not sites else
+             'put marks %s dirty and unlocks it on a validate-and-retry exit (%s): the counter of a border nothing was '
+             'inserted into is bumped and the border is not reported' % (
+                 ', '.join(sorted({tok_str(e['tok']) for e in sites.values()})), ', '.join(sorted(sites))),
+             loc=(sorted(sites.values(), key=lambda e: e['loc'])[0]['loc'] if sites else f.loc),
+             path=(sorted(sites.values(), key=lambda e: e['loc'])[0]['path'] if sites else None))
 
 
 def rule_upd(S, la):
